@@ -8,13 +8,18 @@
        fix_shared_pool = fix_atomic_acquire = true   (P11, commit b7ee5068)
        fixed_P12 = true                              (commit 5debdd30)
        fixed_P14 = true                              (commit d7aff2dd)
-       fixed_P13 = false  until repo-patches/52-fix-P13-read-both-pipes-together is applied
-   and this is what the checks pass to the extracted model (the P13 bit is decided by a probe run).
+       fixed_P13 = true                              (commit cfbfd9d5)
+       fixed_P14b = false until repo-patches/71-fix-P14b-thorough-compare-error-breaks-step is applied
+       fixed_P16 = false  until repo-patches/70-fix-P16-glob-edge-to-declared-output is applied
+   and this is what the checks pass to the extracted model (the P13, P14b and P16 bits are decided
+   by probe runs of the binary on every check; the P14b bit must also agree with the regenerated
+   table, [table_P14b]).
 
    What is modelled:
    - the dependency graph: explicit step dependencies and the implicit edges of
      [add_implicit_dependencies] / [dependencies_to_path] (file-like kinds: path equality; glob:
-     matches AND the path exists now; glob-items: member of the RECORDED item list);
+     matches AND the path exists now; glob-items: member of the RECORDED item list; with
+     [fixed_P16]: glob and glob-items: the pattern matches the declared output path, present or not);
    - rejection of unknown step names and of cyclic graphs before any thread starts;
    - one thread per step running [step_state_handler]: every loop iteration is two atomic actions,
      "send the current state to the bulletin channel" ([PSend]) and "run the s_* function of the
@@ -26,7 +31,8 @@
    - the child process and its two pipes (capacity [c_cap]) with the reader of
      [CommandProcess::update_output_channels]: stdout is read to EOF before stderr is touched
      unless [fixed_P13];
-   - thread death: an [Err] return (popen failure) or a [uwr!] panic (thorough comparison error) ends
+   - thread death: an [Err] return (popen failure) or a [uwr!] / unwrap panic (thorough comparison
+     error, unless [fixed_P14b]: then the step becomes Broken(HasMissingDependencies)) ends
      the thread without a terminal state; the panic also kills the output thread, after which every
      other step thread dies at its next logging call (over-approximated by the [Crash] transition).
    States and events of the per-step machine come from the regenerated Gen/StepMachine.v. *)
@@ -72,7 +78,9 @@ Record config := {
   fix_atomic_acquire : bool;     (* P11b: test and decrement in one critical section *)
   fixed_P12 : bool;              (* wait loop handles mixed done / broken dependency steps *)
   fixed_P13 : bool;              (* both pipes are drained without blocking on either *)
-  fixed_P14 : bool               (* a comparison error makes the step Broken(HasMissingDependencies) *)
+  fixed_P14 : bool;              (* a superficial comparison error makes the step Broken(HasMissingDependencies) *)
+  fixed_P14b : bool;             (* ... and so does a thorough comparison error *)
+  fixed_P16 : bool               (* glob / glob-items: pattern match on the declared output path, present or not *)
 }.
 
 Definition fixed_P11 (cfg : config) : bool := fix_shared_pool cfg && fix_atomic_acquire cfg.
@@ -105,8 +113,8 @@ Definition dep_reads (cfg : config) (d : dep) (o : path) : bool :=
   match d with
   | DStep _ => false
   | DPath p => N.eqb p o
-  | DGlob ms => mem o ms && mem o (c_exists cfg)           (* glob_includes: only if the path is present *)
-  | DGlobItems _ recorded => mem o recorded                (* the recorded map, not the pattern *)
+  | DGlob ms => mem o ms && (fixed_P16 cfg || mem o (c_exists cfg))   (* glob_includes: only if the path is present; repaired: glob_matches *)
+  | DGlobItems ms recorded => mem o recorded || (fixed_P16 cfg && mem o ms)   (* the recorded map, not the pattern; repaired: or the pattern *)
   | DNoPath => false
   end.
 
@@ -351,7 +359,8 @@ Definition handler (cfg : config) (s : gstate) (sc : stepcfg) (t : thread) : hre
       else match s_thor sc with
            | VChanged => goto s t ComparingDiffsAndOutputs ThoroughDiffsChanged
            | VSame => goto s t ComparingDiffsAndOutputs ThoroughDiffsNotChanged
-           | VError => HDie true (proc t) (slots s)          (* uwr! around thorough_compare_dependency *)
+           | VError => if fixed_P14b cfg then goto s t Broken HasMissingDependencies
+                       else HDie true (proc t) (slots s)     (* uwr! around thorough_compare_dependency; unwrap in deps/lines.rs, regex.rs *)
            end
   | (ComparingDiffsAndOutputs, Some ThoroughDiffsChanged) => goto s t WaitingToRun DiffsHasChanged
   | (ComparingDiffsAndOutputs, Some _) =>
@@ -555,12 +564,21 @@ Definition Known_mixed (cfg : config) : bool :=
 Definition Known_big_stderr (cfg : config) : bool :=
   existsb (fun sc => match s_proc sc with Exits _ _ err => N.ltb (c_cap cfg) err | CannotStart => false end) (c_steps cfg).
 
-(* P14 / P14b: a step thread can end without a terminal state: popen fails, the thorough comparison
-   fails (uwr!), or -- before the repair of P14 -- the superficial comparison fails *)
+(* the transition the repair of P14b needs is in the regenerated table *)
+Definition table_P14b : bool :=
+  match allowed CheckingThoroughDiffs HasMissingDependencies with Some Broken => true | _ => false end.
+
+(* environment: popen of every step command succeeds (`sh -c ...`) *)
+Definition all_can_start (cfg : config) : bool :=
+  forallb (fun sc => match s_proc sc with CannotStart => false | _ => true end) (c_steps cfg).
+
+(* P14 / P14b: a step thread can end without a terminal state: popen fails, or -- before the repair
+   of P14b -- the thorough comparison fails (uwr!, unwrap), or -- before the repair of P14 -- the
+   superficial comparison fails *)
 Definition is_verror (v : verdict) : bool := match v with VError => true | _ => false end.
 Definition thread_can_die (cfg : config) (sc : stepcfg) : bool :=
   match s_proc sc with CannotStart => true | _ => false end ||
-  (has_dep_records sc && (is_verror (s_thor sc) || (negb (fixed_P14 cfg) && is_verror (s_sup sc)))).
+  (has_dep_records sc && ((negb (fixed_P14b cfg) && is_verror (s_thor sc)) || (negb (fixed_P14 cfg) && is_verror (s_sup sc)))).
 Definition Known_thread_error (cfg : config) : bool := existsb (thread_can_die cfg) (c_steps cfg).
 
 (* P16: a glob / glob-items dependency matches a declared output that is absent (glob) or not in
